@@ -17,8 +17,10 @@ RULE = ('three workload families - (c) one real instance fed by scripted peers (
         'kinds, late joiner) tuples')
 ASSUMPTIONS = ['simulated transport and OS layer (DESIGN.md 2.1) are faithful',
                'statistics collector process and UDP discovery not exercised']
-FLOORS = {'quick': {'events_observed': 5000, 'liveness_evaluations': 50, 'messages_injected': 3000},
-          'thorough': {'events_observed': 50000, 'liveness_evaluations': 500, 'messages_injected': 60000}}
+FLOORS = {'quick': {'events_observed': 5000, 'liveness_evaluations': 50, 'messages_injected': 3000,
+                    'events_about_a_process_known_to_peers_only': 300, 'fuzz_runs_with_pattern_formulas': 40},
+          'thorough': {'events_observed': 50000, 'liveness_evaluations': 500, 'messages_injected': 60000,
+                       'events_about_a_process_known_to_peers_only': 6000, 'fuzz_runs_with_pattern_formulas': 800}}
 COUNT = {'quick': 320, 'thorough': 6000}
 BUDGET_S = {'quick': 50, 'thorough': 520}
 
@@ -38,7 +40,7 @@ APPS_KNOBS = {'n_min': 1, 'n_max': 4, 'publisher': True,
               'n_actions': [1, 2, 3, 4, 6, 8], 'early_p': 0.3}
 
 
-FUZZ_KNOBS = {'n_steps': [60, 100, 160], 'unknown_process_p': 0.15}
+FUZZ_KNOBS = {'n_steps': [60, 100, 160], 'unknown_process_p': 0.15, 'formula_rules_p': 0.6, 'extra_process_p': 0.25}
 
 
 def plan(tier, seed):
@@ -68,7 +70,9 @@ def run_case(case):
         violations = [v for v in run.execute() if v['key'].startswith('C16/')]
         run.counters = {k: v for k, v in run.counters.items()
                         if k in ('messages_injected', 'proxy_steps', 'critical_records', 'events_observed',
-                                 'liveness_evaluations')}
+                                 'liveness_evaluations', 'events_about_a_process_known_to_peers_only')}
+        if run.options.get('rules') == 'formulas':
+            run.counters['fuzz_runs_with_pattern_formulas'] = 1
         nontrivial = run.counters.get('messages_injected', 0) > 0
     return {'violations': violations, 'counters': run.counters,
             'signature': (family + '|' + run.shape()) if nontrivial else None,
